@@ -152,6 +152,7 @@ let io_kind (e : ioerr) : string =
   | IoPermissionDenied -> "Io:PermissionDenied"
   | IoOther -> "Io:Other"
   | IoInterrupted -> "Io:Interrupted"
+  | IoIsADirectory -> "Io:IsADirectory"
 
 let parse_kind (s : string) : ioerr =
   match s with
@@ -196,7 +197,10 @@ let print_ls (w : world) : unit =
   List.iter
     (fun (name, e) ->
       match e with
-      | FFile b -> Printf.printf "ls x%s f %d\n" (hex_of_bytes name) (List.length b)
+      | FFile b ->
+          let len = List.length b in
+          if len <= 4096 then Printf.printf "ls x%s f %d %08x\n" (hex_of_bytes name) len (fnv32 b)
+          else Printf.printf "ls x%s f %d\n" (hex_of_bytes name) len
       | FDir -> Printf.printf "ls x%s d 0\n" (hex_of_bytes name)
       | FOther -> Printf.printf "ls x%s o 0\n" (hex_of_bytes name))
     entries
